@@ -1,6 +1,7 @@
 package rules
 
 import (
+	"sync"
 	"go/ast"
 	"go/token"
 	"go/types"
@@ -794,17 +795,30 @@ func (e *miniEval) rangeElems(x ast.Expr) ([]int64, bool) {
 }
 
 var (
+	internMu    sync.Mutex
 	internTable = map[string]int64{}
+	internBack  = map[int64]string{}
 )
 
 // internString gives every distinct string constant a number of its own (strings are only compared).
 func internString(s string) int64 {
+	internMu.Lock()
+	defer internMu.Unlock()
 	if v, ok := internTable[s]; ok {
 		return v
 	}
 	v := int64(1_000_000 + len(internTable))
 	internTable[s] = v
+	internBack[v] = s
 	return v
+}
+
+// uninternString: the (quoted) string constant a number stands for.
+func uninternString(v int64) (string, bool) {
+	internMu.Lock()
+	defer internMu.Unlock()
+	s, ok := internBack[v]
+	return s, ok
 }
 
 // inlinePure evaluates a call of a module function (no receiver use, integer parameters, one
